@@ -261,7 +261,8 @@ func c25EntryEq(a, b c25Entry) bool {
 const c25NEvents = 18
 
 type c25Case struct {
-	Events []int `json:"events"`
+	Events []int   `json:"events"`         // history from the empty state (for a fork case: the parent P)
+	Fork   *[3]int `json:"fork,omitempty"` // fork-order case: events e1, e2 on P and e3 on step(P,e1)
 }
 
 func c25Fill(tag byte, a, b int) c25Hash {
@@ -374,49 +375,7 @@ func c25Run(r *vlib.Run, c c25Case, checkFrom int) string {
 			r.State(ref.canon())
 		}
 		where := fmt.Sprintf("history %v block %d (prior length %d)", c.Events, d, priorLen)
-		if len(got.Hist) > c25H {
-			r.Violation(site, "history-exceeds-H", key, fmt.Sprintf("%s: %d entries", where, len(got.Hist)), c)
-		}
-		if len(got.Hist) != len(ref.Hist) {
-			r.Violation(site, "wrong-length", key, fmt.Sprintf("%s: %d entries, reference %d", where, len(got.Hist), len(ref.Hist)), c)
-			return "diverged"
-		}
-		n := len(ref.Hist)
-		bad := false
-		for i := 0; i < n; i++ {
-			if c25EntryEq(got.Hist[i], ref.Hist[i]) {
-				continue
-			}
-			bad = true
-			g, w := got.Hist[i], ref.Hist[i]
-			switch {
-			case i == n-1 && g.Header != w.Header:
-				r.Violation(site, "new-entry-wrong-header-hash", key, fmt.Sprintf("%s: got %x want %x", where, g.Header, w.Header), c)
-			case i == n-1 && g.State != w.State:
-				r.Violation(site, "new-entry-nonzero-state-root", key, fmt.Sprintf("%s: got %x", where, g.State), c)
-			case i == n-1 && g.Beefy != w.Beefy:
-				r.Violation("recent_history.AppendAndCommitMmr", "new-entry-wrong-commitment", key, fmt.Sprintf("%s: got %x want %x (theta' has %d outputs, prior belt has %d peaks)", where, g.Beefy, w.Beefy, len(theta), priorPeaks), c)
-			case i == n-1:
-				r.Violation("recent_history.MapWorkReportFromEg", "new-entry-wrong-reported", key, fmt.Sprintf("%s: got %v want %v", where, g, w), c)
-			case i == n-2 && g.State != w.State:
-				r.Violation("recent_history.History2HistoryDagger", "wrong-patched-state-root", key, fmt.Sprintf("%s: previous newest entry has state root %x, block's parent state root %x", where, g.State, w.State), c)
-			default:
-				r.Violation(site, "other-entry-changed", key, fmt.Sprintf("%s: entry %d is %v, reference %v (before the block: %v)", where, i, g, w, before.Hist), c)
-			}
-		}
-		if len(got.Peaks) != len(ref.Peaks) {
-			bad = true
-			r.Violation("recent_history.AppendAndCommitMmr", "wrong-belt", key, fmt.Sprintf("%s: belt has %d peak slots, reference %d", where, len(got.Peaks), len(ref.Peaks)), c)
-		} else {
-			for i := range ref.Peaks {
-				a, b := got.Peaks[i], ref.Peaks[i]
-				if (a == nil) != (b == nil) || a != nil && *a != *b {
-					bad = true
-					r.Violation("recent_history.AppendAndCommitMmr", "wrong-belt", key, fmt.Sprintf("%s: belt peak %d differs", where, i), c)
-					break
-				}
-			}
-		}
+		bad := !c25Compare(r, c, key, where, got, ref, before, len(theta), priorPeaks)
 		if bad {
 			return "diverged"
 		}
@@ -432,6 +391,163 @@ func c25Run(r *vlib.Run, c c25Case, checkFrom int) string {
 	return trace.String()
 }
 
+// c25Compare reports every difference between the implementation's posterior β and the reference.
+func c25Compare(r *vlib.Run, c c25Case, key, where string, got, ref, before c25Ref, nTheta, priorPeaks int) bool {
+	site := "recent_history.STFBetaHDagger2BetaHPrime"
+	if len(got.Hist) > c25H {
+		r.Violation(site, "history-exceeds-H", key, fmt.Sprintf("%s: %d entries", where, len(got.Hist)), c)
+	}
+	if len(got.Hist) != len(ref.Hist) {
+		r.Violation(site, "wrong-length", key, fmt.Sprintf("%s: %d entries, reference %d", where, len(got.Hist), len(ref.Hist)), c)
+		return false
+	}
+	n := len(ref.Hist)
+	bad := false
+	for i := 0; i < n; i++ {
+		if c25EntryEq(got.Hist[i], ref.Hist[i]) {
+			continue
+		}
+		bad = true
+		g, w := got.Hist[i], ref.Hist[i]
+		switch {
+		case i == n-1 && g.Header != w.Header:
+			r.Violation(site, "new-entry-wrong-header-hash", key, fmt.Sprintf("%s: got %x want %x", where, g.Header, w.Header), c)
+		case i == n-1 && g.State != w.State:
+			r.Violation(site, "new-entry-nonzero-state-root", key, fmt.Sprintf("%s: got %x", where, g.State), c)
+		case i == n-1 && g.Beefy != w.Beefy:
+			r.Violation("recent_history.AppendAndCommitMmr", "new-entry-wrong-commitment", key, fmt.Sprintf("%s: got %x want %x (theta' has %d outputs, prior belt has %d peaks)", where, g.Beefy, w.Beefy, nTheta, priorPeaks), c)
+		case i == n-1:
+			r.Violation("recent_history.MapWorkReportFromEg", "new-entry-wrong-reported", key, fmt.Sprintf("%s: got %v want %v", where, g, w), c)
+		case i == n-2 && g.State != w.State:
+			r.Violation("recent_history.History2HistoryDagger", "wrong-patched-state-root", key, fmt.Sprintf("%s: previous newest entry has state root %x, block's parent state root %x", where, g.State, w.State), c)
+		default:
+			r.Violation(site, "other-entry-changed", key, fmt.Sprintf("%s: entry %d is %v, reference %v (before the block: %v)", where, i, g, w, before.Hist), c)
+		}
+	}
+	if len(got.Peaks) != len(ref.Peaks) {
+		bad = true
+		r.Violation("recent_history.AppendAndCommitMmr", "wrong-belt", key, fmt.Sprintf("%s: belt has %d peak slots, reference %d", where, len(got.Peaks), len(ref.Peaks)), c)
+	} else {
+		for i := range ref.Peaks {
+			a, b := got.Peaks[i], ref.Peaks[i]
+			if (a == nil) != (b == nil) || a != nil && *a != *b {
+				bad = true
+				r.Violation("recent_history.AppendAndCommitMmr", "wrong-belt", key, fmt.Sprintf("%s: belt peak %d differs", where, i), c)
+				break
+			}
+		}
+	}
+	return !bad
+}
+
+// ---------- fork-order pass: a transition is a function of (installed prior state, block) only ----------
+
+// fresh repository values for a reference state
+func c25ToImpl(s c25Ref) types.RecentBlocks {
+	var b types.RecentBlocks
+	for _, e := range s.Hist {
+		bi := types.BlockInfo{HeaderHash: types.HeaderHash(e.Header), BeefyRoot: types.OpaqueHash(e.Beefy), StateRoot: types.StateRoot(e.State)}
+		for _, p := range e.Reported {
+			bi.Reported = append(bi.Reported, types.ReportedWorkPackage{Hash: types.WorkReportHash(p.Hash), ExportsRoot: types.ExportsRoot(p.Exports)})
+		}
+		b.History = append(b.History, bi)
+	}
+	for _, p := range s.Peaks {
+		if p == nil {
+			b.Mmr.Peaks = append(b.Mmr.Peaks, nil)
+		} else {
+			h := types.OpaqueHash(*p)
+			b.Mmr.Peaks = append(b.Mmr.Peaks, types.MmrPeak(&h))
+		}
+	}
+	return b
+}
+
+func (r *c25Ref) clone() c25Ref {
+	var o c25Ref
+	o.Hist = append([]c25Entry(nil), r.Hist...)
+	for _, p := range r.Peaks {
+		if p == nil {
+			o.Peaks = append(o.Peaks, nil)
+		} else {
+			c := *p
+			o.Peaks = append(o.Peaks, &c)
+		}
+	}
+	return o
+}
+
+// install `from` as the prior state (no process restart, no replay), run block (d, ev, parent) through the
+// real code and compare with the reference. Returns the reference successor and the block's header hash.
+func c25StepInstalled(r *vlib.Run, cs *blockchain.ChainState, c c25Case, label string, from c25Ref, d, ev int, parent c25Hash) (c25Ref, c25Hash, bool) {
+	blk, pr, reps, theta := c25Block(d, ev, parent)
+	hh := c25HeaderHash(blk.Header)
+	after := from.clone()
+	after.step(hh, pr, reps, theta)
+	lao := make(types.LastAccOut, 0, len(theta))
+	for _, t := range theta {
+		lao = append(lao, types.AccumulatedServiceHash{ServiceID: types.ServiceID(t.Svc), Hash: types.OpaqueHash(t.Hash)})
+	}
+	var err error
+	panicked, msg, _ := vlib.Guard(func() {
+		cs.GetPriorStates().SetBeta(c25ToImpl(from))
+		cs.GetPosteriorStates().SetState(blockchain.NewPosteriorStates().GetState())
+		cs.AddBlock(blk)
+		cs.GetPosteriorStates().SetLastAccOut(lao)
+		STFBetaH2BetaHDagger()
+		err = STFBetaHDagger2BetaHPrime()
+	})
+	r.Transition()
+	key := "fork-order:" + label // one defect of this kind = few signatures
+	where := fmt.Sprintf("parent history %v, fork events %v, transition %s (event %d on an installed prior state of length %d)", c.Events, *c.Fork, label, ev, len(from.Hist))
+	site := "recent_history.STFBetaHDagger2BetaHPrime"
+	if panicked {
+		r.Violation(site, "go-panic", key, where+": Go panic "+msg, c)
+		return after, hh, false
+	}
+	if err != nil {
+		r.Violation(site, "transition-error", key, fmt.Sprintf("%s: error %v", where, err), c)
+		return after, hh, false
+	}
+	got := c25FromImpl(cs.GetPosteriorStates().GetBeta())
+	pp := 0
+	for _, p := range from.Peaks {
+		if p != nil {
+			pp++
+		}
+	}
+	return after, hh, c25Compare(r, c, key, where, got, after, from, len(theta), pp)
+}
+
+// reference-only replay of a history
+func c25RefChain(events []int) (c25Ref, c25Hash) {
+	var ref c25Ref
+	var parent c25Hash
+	for d, ev := range events {
+		blk, pr, reps, theta := c25Block(d, ev, parent)
+		hh := c25HeaderHash(blk.Header)
+		ref.step(hh, pr, reps, theta)
+		parent = hh
+	}
+	return ref, parent
+}
+
+// P --e1--> A, then P --e2--> B, then A --e3--> A2, then P --e1--> A again, all in one process on
+// installed prior states: any state carried between calls outside the installed state shows up.
+func c25Fork(r *vlib.Run, c c25Case) {
+	P, parent := c25RefChain(c.Events)
+	d := len(c.Events)
+	cs := c25Reset()
+	f := *c.Fork
+	A, hashA, ok := c25StepInstalled(r, cs, c, "P-e1->A", P, d, f[0], parent)
+	_, _, ok2 := c25StepInstalled(r, cs, c, "P-e2->B(after A)", P, d, f[1], parent)
+	_, _, ok3 := c25StepInstalled(r, cs, c, "A-e3->A2(after B)", A, d+1, f[2], hashA)
+	_, _, ok4 := c25StepInstalled(r, cs, c, "P-e1->A(again)", P, d, f[0], parent)
+	r.Eval()
+	r.Trace()
+	r.Class(fmt.Sprintf("fork-order parent=%s all-agree=%v", c25LenClass(len(P.Hist)), ok && ok2 && ok3 && ok4))
+}
+
 func TestVerif_C25(t *testing.T) {
 	r := vlib.Start(t, "C25")
 	defer r.Finish()
@@ -439,7 +555,11 @@ func TestVerif_C25(t *testing.T) {
 
 	var rc c25Case
 	if r.IsReplay(&rc) {
-		c25Run(r, rc, 0)
+		if rc.Fork != nil {
+			c25Fork(r, rc)
+		} else {
+			c25Run(r, rc, 0)
+		}
 		return
 	}
 
@@ -488,5 +608,34 @@ func TestVerif_C25(t *testing.T) {
 			r.Sample(c)
 		}
 	})
-	// short histories (every prefix length is a checked transition above; nothing more to do)
+
+	// ---- fork-order pass ----
+	// parents: every history of depth <= 1 (quick) / <= 2 (thorough) plus prefixes of two long chains
+	// (so that full histories and multi-peak belts are forked too)
+	var parents [][]int
+	for n := 0; n <= vlib.Pick(r, 1, 2); n++ {
+		vlib.Sequences(c25NEvents, n, func(s []int) { parents = append(parents, append([]int{}, s...)) })
+	}
+	for _, chain := range [][]int{{0, 17, 5, 13, 8, 2, 16, 4, 9, 11}, {4, 1, 14, 10, 7, 12, 3, 15, 6, 2}} {
+		for _, n := range []int{2, 3, 7, 8, 9} {
+			parents = append(parents, append([]int{}, chain[:n]...))
+		}
+	}
+	for _, p := range parents {
+		for e1 := 0; e1 < c25NEvents; e1++ {
+			for e2 := 0; e2 < c25NEvents; e2++ {
+				if e1 == e2 {
+					continue
+				}
+				idx++
+				if !r.Mine(idx) {
+					continue
+				}
+				for e3 := 0; e3 < c25NEvents; e3++ {
+					r.Space(1)
+					c25Fork(r, c25Case{Events: p, Fork: &[3]int{e1, e2, e3}})
+				}
+			}
+		}
+	}
 }
